@@ -13,7 +13,8 @@ Local Open Scope string_scope.
    surround them — the data and binaryData of what the build accumulates is the fold [chain_data] of the
    dictionary step [dstep] over the declarations, bottom kustomization first:
      nothing yet + create/unspecified -> the declared maps;   nothing yet + merge/replace -> error;
-     something   + merge -> entry-wise override, the overlay wins;  + replace -> the declared maps;
+     something   + merge -> entry-wise override of ONE dictionary per object: the overlay wins and takes the key
+                            out of the other map;                    + replace -> the declared maps;
      something   + create/unspecified -> error.
    The equation is between outcomes, so it also says the build fails exactly when the fold does
    (the error laws), when a generator's sources are malformed, or when a kustomization file is empty. *)
@@ -35,9 +36,15 @@ Print Assumptions C06_dictionary_override.
 Theorem C06_dictionary_merge_entries :
   forall (old new : option dict * dict) (k : string),
     dict_get k (dict_of_opt (fst (merge_dd old new))) =
-      match dict_get k (rev (dict_of_opt (fst new))) with Some v => Some v | None => dict_get k (dict_of_opt (fst old)) end /\
+      match dict_get k (rev (dict_of_opt (fst new))) with
+      | Some v => Some v
+      | None => match dict_get k (snd new) with Some _ => None | None => dict_get k (dict_of_opt (fst old)) end
+      end /\
     dict_get k (snd (merge_dd old new)) =
-      match dict_get k (rev (snd new)) with Some v => Some v | None => dict_get k (snd old) end.
+      match dict_get k (rev (snd new)) with
+      | Some v => Some v
+      | None => match dict_get k (dict_of_opt (fst (merge_dd old new))) with Some _ => None | None => dict_get k (snd old) end
+      end.
 Proof. exact merge_dd_get. Qed.
 Print Assumptions C06_dictionary_merge_entries.
 
@@ -87,20 +94,19 @@ Theorem C06_absorb_replace :
 Proof. exact absorb_replace. Qed.
 Print Assumptions C06_absorb_replace.
 
-(* The full reading "one dictionary per object" fails: merge treats data and binaryData as two dictionaries.
-   A single declaration never puts a key into both maps (partial) ... *)
-Theorem C06_keys_disjoint_partial :
+(* C06_keys_disjoint (was _partial/_refuted, finding merge-key-in-data-and-binaryData, until the repair 0a87769 of
+   MergeDataMapFrom / MergeBinaryDataMapFrom): one dictionary per object — in every build output of every tree no
+   object has a key both in data and in binaryData.  Regression example: keys_disjoint_regression. *)
+Theorem C06_keys_disjoint :
+  forall l out, build l = Ok out -> Forall disjoint_keys out.
+Proof. exact build_keys_disjoint. Qed.
+Print Assumptions C06_keys_disjoint.
+
+Theorem C06_keys_disjoint_declaration :
   forall files g a r k, make_generated files g a = Ok r ->
     In k (map fst (dict_of_opt (g_data r))) -> In k (map fst (g_bin r)) -> False.
 Proof. exact make_generated_disjoint. Qed.
-Print Assumptions C06_keys_disjoint_partial.
-
-(* ... but merging a text value over a binary one keeps both entries (finding merge-key-in-data-and-binaryData) *)
-Theorem C06_keys_disjoint_refuted :
-  exists o, build stale_tree = Ok [o] /\
-            dict_get "k" (dict_of_opt (g_data o)) = Some "text" /\ dict_get "k" (g_bin o) = Some "//4=".
-Proof. exact keys_disjoint_refuted. Qed.
-Print Assumptions C06_keys_disjoint_refuted.
+Print Assumptions C06_keys_disjoint_declaration.
 
 (* ---------------------------------------------------------------- the name suffix *)
 
@@ -128,16 +134,17 @@ Theorem C06_name_is_hash_chain :
 Proof. exact chain_name_is_hash. Qed.
 Print Assumptions C06_name_is_hash_chain.
 
-(* The law "every acceptable content has a name" fails (finding hash-yaml-roundtrip-leading-tab): the hash is
-   undefined exactly on contents whose YAML text go-yaml cannot read back (partial) ... *)
+(* The law "every acceptable content has a name" still fails for ONE spelling (finding
+   hash-yaml-roundtrip-merge-key): the hash is defined exactly when no key is << (partial; the leading-TAB shape was
+   repaired by baa93c5, regression examples hash_leading_tab_regression / leading_tab_regression) ... *)
 Theorem C06_hash_total_partial :
   forall c, content_rt_fails c = false -> exists s, hash_content c = Ok s.
 Proof. exact hash_content_total. Qed.
 Print Assumptions C06_hash_total_partial.
 
-(* ... and a well-formed declaration (a file starting with a TAB, two lines) accumulates but cannot be built *)
+(* ... and a well-formed declaration with the key << accumulates but cannot be built *)
 Theorem C06_hash_total_refuted :
-  (exists o, accumulate tab_tree = Ok [o] /\ g_data o = Some [("k", sb [9; 120; 10; 121]%N)]) /\ build tab_tree = Err.
+  (exists o, accumulate merge_key_tree = Ok [o] /\ g_data o = Some [("<<", "v")]) /\ build merge_key_tree = Err.
 Proof. exact build_total_refuted. Qed.
 Print Assumptions C06_hash_total_refuted.
 
@@ -181,7 +188,8 @@ Theorem C06_encode_injective_partial :
 Proof. exact encode_content_inj. Qed.
 Print Assumptions C06_encode_injective_partial.
 
-(* ... refuted in full (finding hash-ignores-null-named-keys): entries under a null-spelled key are not hashed *)
+(* ... refuted in full (finding hash-ignores-null-named-keys; the repair was declined: tagging the keys !!str changes the
+   emitted spelling of keys such as 1 / true): entries under a null-spelled key are not hashed *)
 Theorem C06_encode_injective_refuted :
   exists c c', content_utf8 c = true /\ content_utf8 c' = true /\ content_norm c /\ content_norm c' /\
                c <> c' /\ encode_content c = encode_content c'.
